@@ -552,9 +552,15 @@ func buildModel(sc *hysim.Script, obNames []string) *aclModel {
 	}
 	var b strings.Builder
 	b.WriteString("# generated ACL\n")
+	longAt := int(sc.Get("long_comment_at", -1))
 	for _, op := range sc.Ops {
 		switch op.K {
 		case "rule":
+			if len(m.rules) == longAt {
+				// generated rule files carry provenance headers and machine-written comments: one
+				// very long line between the rules changes nothing
+				b.WriteString("# " + strings.Repeat("x", int(sc.Get("long_comment_len", 70000))) + "\n")
+			}
 			r := buildRule(op, obNames)
 			m.rules = append(m.rules, r)
 			b.WriteString(r.text + "\n")
@@ -581,6 +587,10 @@ func genACL(r *hysim.Rand, tier string, mode int) *hysim.Script {
 	}
 	ncall := r.Pick(1, 1, 2, 3, 4)
 	sc.Cfg["ncall"] = int64(ncall)
+	if r.Chance(1, 12) {
+		sc.Cfg["long_comment_at"] = int64(r.Intn(3))
+		sc.Cfg["long_comment_len"] = r.Pick64(65000, 65535, 65536, 70000, 200000)
+	}
 	cache := 1024
 	if mode == modeMatch {
 		switch r.Intn(10) {
